@@ -4,6 +4,7 @@ Mostly outside the reach of contracts on Python functions (Jinja2 template text,
 Under contract: TextTabWriter._write_structure (layout recursion), writer registry resolution, table totality.
 Everything else is the bounded stand-in, labelled bounded."""
 from __future__ import annotations
+import types
 import ast, itertools, os, random, re
 from pyvc import source, REPO
 from pyvc.interp import Interp, explore, Outside, PyExc, SymVal, Contract, GenList, LocalList
@@ -65,6 +66,114 @@ def write_structure_obligation(ctx):
         if any(not re.fullmatch(r'[ |]*<\w+>;', l) for l in lines): ok = False; why.append('prefix ' + t.name)
     ctx.add(enum_ob('C19.text._write_structure.layout', ok, where=where, cex=dict(bad=why),
                     clause='the text of a tableau is the pre-order listing of the rendered structures, each on its own line behind a prefix of blanks and bars, siblings separated by a connector line (interpreted from source on four tree shapes; the recursion is on the real function)'))
+
+def template_binding_obligation(ctx):
+    """TextTabWriter.__call__ / JinjaTabWriter.get_template interpreted from source over call histories of two writers that
+    share the class-level jinja2 Environment.  Trusted contract of Environment.get_template(name, parent, globals): it returns
+    the one cached Template of that name and updates that template's globals with `globals` (jinja2 documents exactly this).
+    Clause: whenever a writer renders a structure, the shared template is bound to that writer's own lw and opts."""
+    import functools
+    from pytableaux.proof.writers.jinja import TextTabWriter, JinjaTabWriter
+    from pyvc.interp import BoundSource
+    from collections import deque
+    fcall = TextTabWriter.__dict__['__call__']; fi_call = source.of_function(fcall); where = ctx.under_contract(fi_call)
+    for c in TextTabWriter.__mro__:
+        if 'get_template' in c.__dict__: ctx.under_contract(source.of_function(c.__dict__['get_template'])); break
+    world = World()
+    world.builtin_models[deque] = lambda it, xs=(), maxlen=None: LocalList(it.iterate(xs))
+    class Tmpl(SymVal):
+        def __init__(s): s.bound = {}; s.renders = []
+        def sym_getattr(s, it, n):
+            if n == 'render':
+                def render(it, *a, structure=None, **kw):
+                    s.renders.append((s.current, s.bound.get('lw'), s.bound.get('opts')))
+                    return f'<{getattr(structure, "name", "?")}>;'
+                return Contract(render, 'jinja2.Template.render')
+            if n == 'globals': return s.bound
+            raise Outside(f'Template.{n}')
+        def sym_is(s, it, o): return s is o
+    class Env(SymVal):
+        def __init__(s): s.tmpl = {}
+        def sym_getattr(s, it, n):
+            if n == 'get_template':
+                def gt(it, name, parent=None, globals=None):
+                    t = s.tmpl.setdefault(name, Tmpl())
+                    if globals: t.bound.update(dict(globals))
+                    return t
+                return Contract(gt, 'jinja2.Environment.get_template (cached template; globals updated)')
+            raise Outside(f'Environment.{n}')
+    class TreeS(SymVal):
+        def __init__(s, name, kids=()): s.name, s.kids = name, list(kids)
+        def sym_getattr(s, it, n):
+            if n == 'children': return LocalList(s.kids)
+            raise Outside(n)
+    class TabS(SymVal):
+        def sym_getattr(s, it, n):
+            if n == 'tree': return TreeS('r', [TreeS('a'), TreeS('b')])
+            raise Outside(f'Tableau.{n}')
+    class Writer(SymVal):
+        def __init__(s, tag, env): s.tag, s.env, s.d = tag, env, {}
+        def sym_getattr(s, it, n):
+            if n in s.d: return s.d[n]
+            if n == 'lw': return f'lw-of-{s.tag}'
+            if n == 'opts': return f'opts-of-{s.tag}'
+            if n == 'jinja': return s.env
+            for c in TextTabWriter.__mro__:
+                if n in c.__dict__:
+                    v = c.__dict__[n]
+                    if isinstance(v, types.FunctionType): return BoundSource(source.of_function(v), v, c, s)
+                    if isinstance(v, functools.cached_property):
+                        r = it.call_source(source.of_function(v.func), v.func, c, [s], {}, recv=s); s.d[n] = r; return r
+                    if isinstance(v, property):
+                        return it.call_source(source.of_function(v.fget), v.fget, c, [s], {}, recv=s)
+                    if isinstance(v, (str, int, bool, type(None))): return v
+                    raise Outside(f'TextTabWriter.{n} of type {type(v).__name__}')
+            raise PyExc(AttributeError, (n,))
+        def sym_setattr(s, it, n, v): s.d[n] = v
+        def sym_truth(s, it): return True
+    bad = None; und = None
+    for hist in (['A'], ['A', 'A'], ['A', 'B'], ['A', 'B', 'A'], ['A', 'B', 'B', 'A'], ['B', 'A', 'B', 'A']):
+        def run(path, hist=hist):
+            it = Interp(path, world)
+            env = Env(); ws = {'A': Writer('A', env), 'B': Writer('B', env)}
+            outs = []
+            for who in hist:
+                for t in env.tmpl.values(): t.current = who
+                Tmpl.current = who
+                outs.append(it.call_source(fi_call, fcall, TextTabWriter, [ws[who], TabS()], {}, recv=ws[who]))
+            return env, outs
+        try:
+            prs = explore(run)
+        except Outside as e:
+            und = f'outside subset: {e}'; break
+        for pr in prs:
+            if pr.kind != 'return': bad = dict(history=hist, raises=str(pr.value)); break
+            env, outs = pr.value
+            for t in env.tmpl.values():
+                for who, lw, opts in t.renders:
+                    if lw != f'lw-of-{who}' or opts != f'opts-of-{who}':
+                        bad = dict(history=hist, rendering_writer=who, template_bound_to=dict(lw=lw, opts=opts)); break
+                if bad: break
+            if not bad and not any(t.renders for t in env.tmpl.values()): bad = dict(history=hist, note='nothing rendered')
+            if bad: break
+        if bad: break
+    if und: return ctx.add_result(Result('C19.text.template-bound-per-render', 'unknown', detail=und, where=where))
+    ctx.add(enum_ob('C19.text.template-bound-per-render', bad is None, where=where, cex=bad,
+                    clause='in every call history of two text writers sharing the class-level Environment, each structure is rendered with the shared template bound to the rendering writer\'s own lw and opts'))
+
+def replay_template_binding(r):
+    "two live text writers of different notation on a real tableau: A, B, A"
+    from pytableaux.proof import Tableau, TabWriter
+    from pytableaux.lang import Argument
+    t = Tableau('CPL', Argument('Aab:a')).build()
+    wa, wb = TabWriter('text', 'polish'), TabWriter('text', 'standard')
+    a1 = wa(t); b1 = wb(t); a2 = wa(t); b2 = wb(t)
+    fa, fb = TabWriter('text', 'polish')(t), TabWriter('text', 'standard')(t)
+    bad = []
+    if a1 != a2: bad.append('the polish writer renders the same tableau differently after a standard-notation writer rendered')
+    if b1 != b2: bad.append('the standard writer renders differently the second time')
+    if a2 != fa or b2 != fb: bad.append('a long-lived writer differs from a fresh writer of the same notation')
+    return dict(reproduced=bool(bad), detail='; '.join(bad) or 'A, B, A, B render identically to fresh writers', second_polish_rendering=a2[:200])
 
 def registry_obligation(ctx):
     from pytableaux.proof import writers, TabWriter
@@ -132,6 +241,7 @@ def _render_chunk(job):
     logic = RS.registry()(lname); L = logic.Meta.name
     rnd = random.Random(seed)
     n = 0; bad = []
+    live = {}       # long-lived writers, shared by all tableaux of the chunk
     kinds = ['prop'] + (['modal'] if logic.Meta.modal else []) + (['fo'] if logic.Meta.quantified else [])
     for i in range(count):
         arg = A.random_argument(rnd, kinds[i % len(kinds)], depth=3, max_premises=2)
@@ -141,19 +251,28 @@ def _render_chunk(job):
         except Exception as e:
             continue
         if t.tree is None: continue
-        for fmt in writers.registry:
-            for notn in Notation:
-                n += 1
-                try:
-                    w = TabWriter(fmt, notn)
-                    o1 = w(t); o2 = TabWriter(fmt, notn)(t)
-                except Exception as e:
-                    bad.append(dict(logic=L, argument=arg.argstr(), options=opts, format=fmt, notation=notn.name, kind='exception', error=f'{type(e).__name__}: {str(e)[:80]}')); continue
-                if o1 != o2: bad.append(dict(logic=L, argument=arg.argstr(), options=opts, format=fmt, notation=notn.name, kind='nondeterministic'))
-                if not isinstance(o1, str) or not o1.strip(): bad.append(dict(logic=L, argument=arg.argstr(), options=opts, format=fmt, notation=notn.name, kind='empty'))
-                if fmt == 'text':
-                    prob = text_faithful(t, o1, w.lw)
-                    if prob: bad.append(dict(logic=L, argument=arg.argstr(), options=opts, format=fmt, notation=notn.name, kind='text-unfaithful', problem=prob))
+        combos = [(fmt, notn) for fmt in writers.registry for notn in Notation]
+        first = {}
+        for fmt, notn in combos:
+            n += 1
+            try:
+                if (fmt, notn) not in live: live[fmt, notn] = TabWriter(fmt, notn)
+                o1 = first[fmt, notn] = live[fmt, notn](t)
+            except Exception as e:
+                bad.append(dict(logic=L, argument=arg.argstr(), options=opts, format=fmt, notation=notn.name, kind='exception', error=f'{type(e).__name__}: {str(e)[:80]}')); continue
+            if not isinstance(o1, str) or not o1.strip(): bad.append(dict(logic=L, argument=arg.argstr(), options=opts, format=fmt, notation=notn.name, kind='empty'))
+        # second rendering by the same long-lived writers after all the others rendered, in reverse order; and by fresh writers
+        for fmt, notn in reversed(combos):
+            if (fmt, notn) not in first: continue
+            try:
+                o2 = live[fmt, notn](t); fresh = TabWriter(fmt, notn); o3 = fresh(t)
+            except Exception as e:
+                bad.append(dict(logic=L, argument=arg.argstr(), options=opts, format=fmt, notation=notn.name, kind='exception', error=f'second rendering {type(e).__name__}: {str(e)[:80]}')); continue
+            if not (first[fmt, notn] == o2 == o3): bad.append(dict(logic=L, argument=arg.argstr(), options=opts, format=fmt, notation=notn.name, kind='nondeterministic', note='same writer again after other writers rendered / fresh writer'))
+            if fmt == 'text':
+                for o in (first[fmt, notn], o2):
+                    prob = text_faithful(t, o, fresh.lw)
+                    if prob: bad.append(dict(logic=L, argument=arg.argstr(), options=opts, format=fmt, notation=notn.name, kind='text-unfaithful', problem=prob)); break
     return n, bad
 
 def node_text(nd, lw):
@@ -206,7 +325,7 @@ def bounded_render(ctx):
     total = 0; fails = []
     for n, bad in pmap(_render_chunk, jobs):
         total += n; fails += bad
-    ctx.bounded_part(evaluations=total, distinct_nontrivial=total, rule='seeded finished tableaux (valid, invalid, and premature by a 3-step limit) x 57 logics x {text, html, latex} x {polish, standard}: no exception, two renderings identical, non-empty; for text: one line per tree structure in pre-order, each node\'s written sentence + world + designation marker in order, access nodes as wiRwj, one closure mark per closed branch and only on closed leaves',
+    ctx.bounded_part(evaluations=total, distinct_nontrivial=total, rule='seeded finished tableaux (valid, invalid, and premature by a 3-step limit) x 57 logics x {text, html, latex} x {polish, standard}: no exception, non-empty, and three renderings identical (long-lived writer, the same writer again after every other format/notation rendered, a fresh writer); for text: one line per tree structure in pre-order, each node\'s written sentence + world + designation marker in order, access nodes as wiRwj, one closure mark per closed branch and only on closed leaves',
                      bound=f'{per} tableaux per logic', samples=[dict(logic='FDE', argument='Kab:Aab:Nb', format='text')] + fails[:3], label='rendering')
     seen = set()
     for f in fails:
@@ -225,9 +344,11 @@ def run(ctx):
                        'format and notation, totality of the string tables for every key the writer sources and rule legends use.  Not within reach of contracts: the template text and the doctree visitors, which define the actual content; '
                        'that part is the bounded stand-in (render every format/notation of seeded finished tableaux in all logics; no error, deterministic, text faithful).')
     write_structure_obligation(ctx)
+    template_binding_obligation(ctx)
     registry_obligation(ctx)
     table_totality(ctx)
     bounded_render(ctx)
+    ctx.replayers['C19.text.template-bound'] = replay_template_binding
     ctx.replayers['C19.'] = lambda r: dict(reproduced=None, detail='see counterexample / meta')
 
 def replay(payload):
